@@ -21,7 +21,7 @@ RULE = ("random CPDs with 0..4 parents, cardinalities 1..4 drawn so that parent 
         "+- margin; malformed calls (bad new_order, child in arguments, duplicates, unknown state names, bad shapes); "
         "Bayesian networks that are correct or wrong in exactly one respect (missing CPD, wrong parent set, wrong "
         "cardinality, mismatched / partial state names, column sum off by more / less than the tolerance) with "
-        "get_state_probability queries and the brute-force joint total.  A CPD case is non-trivial when it has >=2 "
+        "get_state_probability queries and the brute-force joint total; CPDs with 8..10 parents (more than 8 axes: small-int set iteration order is no longer sorted) reduced/marginalized over subsets that fix most low-index parents; an aliasing stream: CPDs/factors constructed from C-contiguous float64 ndarrays (also other.get_values(), other.values, one re-filled buffer), then the caller's array or the object is mutated and the other re-checked.  A CPD case is non-trivial when it has >=2 "
         "parents with different cardinalities or non-default state names; a network case when it has >=1 edge; "
         "distinct = distinct canonical input")
 TRUSTED_BASE = ["numpy reshape/transpose/einsum/basic slicing/allclose kernels (modelled by their documented meaning)",
@@ -242,6 +242,25 @@ def gen_bn(rng, nmax):
             "qseed": rng.randint(0, 10 ** 9)}
 
 
+
+def gen_wide(rng):
+    """a CPD with 8..10 parents, cardinalities mostly 2 (some 1 / 3, unequal), table <= ~2000 entries"""
+    while True:
+        k = rng.choice([8, 8, 9, 9, 10])
+        ccard = rng.choice([1, 2, 2])
+        pc = [rng.choice([2, 2, 2, 2, 1, 3]) for _ in range(k)]
+        if ccard * math.prod(pc) <= 2100 and len(set(pc)) > 1:
+            break
+    P = math.prod(pc)
+    mode = rng.choice(["norm", "free"])
+    rows = rand_table(rng, ccard, P, mode)
+    style = rng.choice(["default", "intperm", "str", "mixed"])
+    sn = rand_state_names(rng, k + 1, [ccard] + pc, style)
+    return {"k": k, "ccard": ccard, "pc": pc, "rows": [[fr(x) for x in r] for r in rows], "mode": mode,
+            "style": style, "vstyle": rng.choice(["str", "int", "mixed"]), "sn": sn,
+            "nameseed": rng.randint(0, 10 ** 9), "qseed": rng.randint(0, 10 ** 9)}
+
+
 def cases(tier, seed):
     rng = random.Random(seed)
     out = []
@@ -261,6 +280,15 @@ def cases(tier, seed):
     for _ in range(nmal):
         c = gen_cpd(rng, kmax=3)
         c["kind"] = "malformed"
+        out.append(c)
+    nwide, nalias = (36, 110) if tier == "quick" else (300, 900)
+    for _ in range(nwide):
+        c = gen_wide(rng)
+        c["kind"] = "wide"
+        out.append(c)
+    for _ in range(nalias):
+        c = gen_cpd(rng, kmax=3)
+        c["kind"] = "alias"
         out.append(c)
     return out
 
@@ -311,6 +339,16 @@ def make_impl(N, v, card, rows, ev, ec, sn_py, none_ev=False):
     if none_ev and not ev:
         return TabularCPD(vn[v], card, vals, **kw)
     return TabularCPD(vn[v], card, vals, evidence=[vn[u] for u in ev], evidence_card=list(ec), **kw)
+
+
+def make_impl_arr(N, v, card, arr, ev, ec, sn_py):
+    """like make_impl, but hands the caller's ndarray itself to the constructor"""
+    from pgmpy.factors.discrete import TabularCPD
+    vn = N.varnames
+    kw = {}
+    if sn_py:
+        kw["state_names"] = {vn[u]: list(lst) for u, lst in sn_py.items()}
+    return TabularCPD(vn[v], card, arr, evidence=[vn[u] for u in ev], evidence_card=list(ec), **kw)
 
 
 # ------------------------------------------------------------------ canonical forms
@@ -1105,6 +1143,244 @@ def run_bn(case, drv):
               key=common.canon_key(["bn", case["nodes"], case["edges"], case["cpds"], case["sn"], case["fault"]]), tags=tags)
 
 
+
+# ------------------------------------------------------------------ wide CPDs (>= 8 parents): reduce / marginalize
+def normalised_slice(T0, fixed, X, child=0):
+    sl = {frozenset(p for p in key if p[0] not in X): val for key, val in T0.items() if fixed <= key}
+    dens = {}
+    for k2, v2 in sl.items():
+        pk = frozenset(p for p in k2 if p[0] != child)
+        dens[pk] = dens.get(pk, 0.0) + v2
+    return {k2: ((v2 / dens[frozenset(p for p in k2 if p[0] != child)]) if dens[frozenset(p for p in k2 if p[0] != child)] != 0
+                 else float("nan")) for k2, v2 in sl.items()}
+
+
+def run_wide(case, drv):
+    k = case["k"]
+    N = Names(var_names(case, k + 1))
+    vn = N.varnames
+    rows = [[unfr(x) for x in r] for r in case["rows"]]
+    pc = case["pc"]
+    snd = sn_dict(case, k)
+    ev = list(range(1, k + 1))
+    args = ctor_args(N, 0, case["ccard"], rows, ev, pc, snd)
+    rng = random.Random(case["qseed"])
+    esn = eff_sn(case, k)
+    tags = ["wide parents=%d" % k, "names=" + case["style"]]
+
+    def fresh():
+        return make_impl(N, 0, case["ccard"], rows, ev, pc, snd)
+
+    cpd = fresh()
+    m, _ = drv.call("c05_ctor", [args])
+    mod0 = model_form(m)
+    imp0, e = impl_form(N, cpd)
+    if e:
+        return bad("impl-inconsistent:ctor", e)
+    b = cmp_forms("ctor(wide)", imp0, mod0, cpd.get_values())
+    if b:
+        return b
+    T0 = named_table(imp0["vars"], imp0["cards"], imp0["flat"], imp0["sn"])
+    subsets = []
+    for t in range(12):
+        if t % 3 != 2:   # fix most low-index parents, keep (some of) the high-index ones
+            X = [u for u in ev if (u <= 6 and rng.random() < 0.85) or (u > 6 and rng.random() < 0.3)]
+        else:
+            X = [u for u in ev if rng.random() < 0.5]
+        if not X:
+            X = [rng.choice(ev)]
+        rng.shuffle(X)
+        subsets.append(X)
+    for t, X in enumerate(subsets):
+        inplace = bool(t % 2)
+        states = [rng.randrange(pc[u - 1]) for u in X]
+        vals_py = [(vn[u], esn[u][s_]) for u, s_ in zip(X, states)]
+        vals_m = [[u, N.st(esn[u][s_])] for u, s_ in zip(X, states)]
+        c2 = fresh()
+        r = call_impl(lambda: c2.reduce(vals_py, inplace=inplace, show_warnings=False))
+        st, mr = drv.call_e("c05_reduce", [args, vals_m])
+        if r[0] != st or (st == "err" and r[1] != mr):
+            return bad("impl!=model:reduce-outcome", {"values": vals_m, "impl": r[0], "model": [st, mr if st == "err" else None]})
+        if st == "err":
+            continue
+        obj = c2 if inplace else r[1]
+        impc, e = impl_form(N, obj)
+        if e:
+            return bad("impl-inconsistent:reduce(wide)", e)
+        b = cmp_forms("reduce(wide,inplace=%s)" % inplace, impc, model_form(mr, opt=True), obj.get_values())
+        if b:
+            b["detail"]["values"] = vals_m
+            b["detail"]["kept"] = [u for u in [0] + ev if u not in X]
+            return b
+        # the property itself, by named assignment
+        T2 = named_table(impc["vars"], impc["cards"], impc["flat"], impc["sn"])
+        fixed = {(u, N.st(esn[u][s_])) for u, s_ in zip(X, states)}
+        exp = normalised_slice(T0, fixed, set(X))
+        if T2 is None or set(T2) != set(exp):
+            return bad("impl!=spec:reduce-scope(wide)", {"values": vals_m})
+        for kk, val in exp.items():
+            if math.isfinite(val) and not common.approx(T2[kk], val, 1e-8):
+                return bad("impl!=spec:reduce-not-normalised-slice(wide)", {"values": vals_m, "impl": T2[kk], "expected": val})
+        if not inplace:
+            impo, e = impl_form(N, c2)
+            if e or cmp_forms("x", impo, mod0):
+                return bad("impl!=spec:reduce-out-of-place-mutates(wide)", {"values": vals_m})
+        kept = [u for u in ev if u not in X]
+        tags.append("kept-axes=%d%s" % (len(kept) + 1, " incl. index>=8" if any(u >= 8 for u in kept) else ""))
+    for t, X in enumerate(subsets[:4]):
+        inplace = bool(t % 2)
+        c2 = fresh()
+        r = call_impl(lambda: c2.marginalize([vn[u] for u in X], inplace=inplace))
+        st, mr = drv.call_e("c05_marginalize", [args, X])
+        if r[0] != st or (st == "err" and r[1] != mr):
+            return bad("impl!=model:marginalize-outcome", {"X": X, "impl": r[0], "model": [st, mr if st == "err" else None]})
+        if st == "err":
+            continue
+        obj = c2 if inplace else r[1]
+        impc, e = impl_form(N, obj)
+        if e:
+            return bad("impl-inconsistent:marginalize(wide)", e)
+        b = cmp_forms("marginalize(wide)", impc, model_form(mr, opt=True), obj.get_values())
+        if b:
+            b["detail"]["X"] = X
+            return b
+    return ok(nontrivial=True, key=common.canon_key(["wide", case["ccard"], pc, case["rows"], case["sn"], case["qseed"]]),
+              tags=sorted(set(tags)))
+
+
+# ------------------------------------------------------------------ construction inputs are copied (value semantics)
+def run_alias(case, drv):
+    import numpy as np
+    from pgmpy.factors.discrete import DiscreteFactor, TabularCPD
+    k = case["k"]
+    N = Names(var_names(case, k + 1))
+    vn = N.varnames
+    rows = [[unfr(x) for x in r] for r in case["rows"]]
+    pc = case["pc"]
+    snd = sn_dict(case, k)
+    ev = list(range(1, k + 1))
+    ccard = case["ccard"]
+    args = ctor_args(N, 0, ccard, rows, ev, pc, snd)
+    rng = random.Random(case["qseed"])
+    esn = eff_sn(case, k)
+    tags = ["alias parents=%d" % k]
+    m, _ = drv.call("c05_ctor", [args])
+    mod0 = model_form(m)
+    base = np.array([[float(x) for x in r] for r in rows], dtype=np.float64)
+
+    def new_arr():
+        a = np.array(base, dtype=np.float64, order="C")
+        assert a.flags["C_CONTIGUOUS"]
+        return a
+
+    def same_as_model(obj, what, mod=mod0):
+        f, e = impl_form(N, obj)
+        if e:
+            return bad("impl-inconsistent:" + what, e)
+        return cmp_forms(what, f, mod, obj.get_values() if hasattr(obj, "get_values") else None)
+
+    def scramble(a):
+        a *= 0.5
+        a[0, :] = 7.0
+        a[-1, -1] = -3.0
+
+    # (a) the caller's array is mutated afterwards
+    arr = new_arr()
+    cpd = make_impl_arr(N, 0, ccard, arr, ev, pc, snd)
+    if np.shares_memory(np.asarray(cpd.values), arr):
+        return bad("impl!=spec:cpd-values-alias-constructor-argument", {"via": "2-D float64 C-contiguous ndarray"})
+    scramble(arr)
+    b = same_as_model(cpd, "ctor-then-caller-mutates-array")
+    if b:
+        return b
+    # (b) in-place operations on the CPD: the caller's array and a sibling CPD built from it stay unchanged
+    ops = [("normalize", lambda c: c.normalize(inplace=True)),
+           ("product(2.0)", lambda c: c.product(2.0, inplace=True)),
+           ("values-edit", lambda c: c.values.__imul__(0.0)),
+           ("marginalize([])", lambda c: c.marginalize([], inplace=True))]
+    if k >= 1:
+        u = rng.choice(ev)
+        s_ = esn[u][rng.randrange(pc[u - 1])]
+        ops.append(("reduce", lambda c, u=u, s_=s_: c.reduce([(vn[u], s_)], inplace=True, show_warnings=False)))
+        ops.append(("marginalize", lambda c, u=u: c.marginalize([vn[u]], inplace=True)))
+        if k >= 2:
+            ops.append(("reorder_parents", lambda c: c.reorder_parents([vn[w] for w in reversed(ev)], inplace=True)))
+    if all(isinstance(x, str) and x.isidentifier() for x in vn[: k + 1]):
+        kw = {vn[v]: esn[v][0] for v in range(k + 1)}
+        ops.append(("set_value", lambda c: c.set_value(0.125, **kw)))
+    for label, op in ops:
+        arr = new_arr()
+        c1 = make_impl_arr(N, 0, ccard, arr, ev, pc, snd)
+        c2 = make_impl_arr(N, 0, ccard, arr, ev, pc, snd)
+        if np.shares_memory(np.asarray(c1.values), np.asarray(c2.values)):
+            return bad("impl!=spec:sibling-cpds-share-values", {"op": label})
+        try:
+            op(c1)
+        except (ValueError, KeyError, IndexError, TypeError):
+            pass
+        if not np.array_equal(arr, base):
+            return bad("impl!=spec:in-place-op-writes-into-caller-array", {"op": label})
+        b = same_as_model(c2, "sibling-after-" + label)
+        if b:
+            return b
+    tags.append("inplace-ops=%d" % len(ops))
+    # (c) one scratch buffer re-filled for several CPDs
+    tables = [rows, [[x / 2 for x in r] for r in rows], [[x + Fraction(1, 4) for x in r] for r in reversed(rows)]]
+    buf = np.empty(base.shape, dtype=np.float64)
+    built = []
+    for t in tables:
+        buf[...] = np.array([[float(x) for x in r] for r in t], dtype=np.float64)
+        built.append(make_impl_arr(N, 0, ccard, buf, ev, pc, snd))
+    for t, c in zip(tables, built):
+        mt, _ = drv.call("c05_ctor", [ctor_args(N, 0, ccard, t, ev, pc, snd)])
+        b = same_as_model(c, "ctor-from-reused-buffer", model_form(mt))
+        if b:
+            return b
+    # (d) a CPD built from another CPD's get_values() / a factor built from another object's values
+    src = make_impl(N, 0, ccard, rows, ev, pc, snd)
+    nxt = make_impl_arr(N, 0, ccard, src.get_values(), ev, pc, snd)
+    if np.shares_memory(np.asarray(nxt.values), np.asarray(src.values)):
+        return bad("impl!=spec:cpd-values-alias-constructor-argument", {"via": "other.get_values()"})
+    nxt.values += 1.0
+    nxt.normalize(inplace=True)
+    b = same_as_model(src, "source-after-mutating-cpd-built-from-get_values")
+    if b:
+        return b
+    nxt = make_impl_arr(N, 0, ccard, src.get_values(), ev, pc, snd)
+    src.values *= 3.0
+    b = same_as_model(nxt, "cpd-built-from-get_values-after-mutating-source")
+    if b:
+        return b
+    src = make_impl(N, 0, ccard, rows, ev, pc, snd)
+    kw = {"state_names": {vn[u]: list(l) for u, l in snd.items()}} if snd else {}
+    for via, vals in (("other.values", src.values), ("other.values.reshape(-1)", src.values.reshape(-1)),
+                      ("1-D float64 ndarray", None)):
+        flat = np.array(base.reshape(-1), dtype=np.float64)
+        given = flat if vals is None else vals
+        f = DiscreteFactor([vn[v] for v in [0] + ev], [ccard] + pc, given, **kw)
+        if np.shares_memory(np.asarray(f.values), np.asarray(given)):
+            return bad("impl!=spec:factor-values-alias-constructor-argument", {"via": via})
+        if vals is None:
+            flat[:] = -1.0
+        else:
+            src.values += 1.0
+        ff, e = impl_form(N, f)
+        if e:
+            return bad("impl-inconsistent:factor-ctor", e)
+        fm = {"vars": mod0["vars"], "cards": mod0["cards"], "flat": mod0["flat"], "sn": mod0["sn"]}
+        b = cmp_forms("factor-ctor-then-argument-mutated(%s)" % via, ff, fm)
+        if b:
+            return b
+        if vals is not None:
+            src.values -= 1.0
+        f.values *= 0.0
+        f.normalize(inplace=True) if False else None
+        b = same_as_model(src, "source-after-mutating-factor-built-from-" + via)
+        if b:
+            return b
+    return ok(nontrivial=True, key=common.canon_key(["alias", ccard, pc, case["rows"], case["sn"], case["vstyle"]]), tags=tags)
+
+
 def run_case(case, drv):
     kind = case["kind"]
     if kind == "cpd":
@@ -1115,4 +1391,8 @@ def run_case(case, drv):
         return run_malformed(case, drv)
     if kind == "bn":
         return run_bn(case, drv)
+    if kind == "wide":
+        return run_wide(case, drv)
+    if kind == "alias":
+        return run_alias(case, drv)
     return bad("harness", "unknown kind %r" % kind)
